@@ -344,16 +344,23 @@ def run(ctx):
                             ok = True
             ctx.ob("C01.P6.explicit-limit-present", tag + nm, ok, "%s must be guarded by a comparison with %d" % (guarded_callee, const), f.loc)
         mul = prog.fn("minijinja::value::ops::mul")
-        rep = [c for c in mul.calls() if c.name == "alloc::str::<impl str>::repeat"]
-        ok = bool(rep)
-        for c in rep:
-            g_ok = False
-            for gf in flow.guard_facts(prog, mul, c.bb):
-                if gf[0] in ("bin", "matches", "local", "stdvariant"):
+        # wherever the operator module repeats a string (in `mul` itself or in a helper of it)
+        holders = [g_ for g_ in prog.fns.values() if g_.crate == "minijinja" and g_.loc.f.endswith("value/ops.rs")
+                   and any(c.name == "alloc::str::<impl str>::repeat" for c in g_.calls())]
+        ok = bool(holders)
+        for g_ in holders:
+            for c in g_.calls():
+                if c.name != "alloc::str::<impl str>::repeat":
+                    continue
+                g_ok = False
+                for gf in flow.guard_facts(prog, g_, c.bb):
+                    if gf[0] in ("bin", "matches", "local", "stdvariant", "variant", "discr"):
+                        g_ok = True
+                if not g_ok and flow.guards(g_, c.bb):
                     g_ok = True
-            # the guard must involve MAX_REPEATED_STRING_LEN
-            named = query.named_consts(mul)
-            ok = ok and g_ok and "minijinja::value::ops::MAX_REPEATED_STRING_LEN" in named
+                # the guard must involve MAX_REPEATED_STRING_LEN
+                named = query.named_consts(g_)
+                ok = ok and g_ok and "minijinja::value::ops::MAX_REPEATED_STRING_LEN" in named
         ctx.ob("C01.P6.explicit-limit-present", tag + "repeated string length", ok,
                "str::repeat in ops::mul must be guarded by MAX_REPEATED_STRING_LEN", mul.loc)
         add = prog.fn("minijinja::value::ops::add")
